@@ -222,6 +222,21 @@ def _term(P, fi: FuncInfo, kind=None):
     return vals[0] if len(vals) == 1 else None
 
 
+def _terms(P, fi: FuncInfo, kind=None):
+    """[(condition text, result term)] for every returning path of an operator implementation (non-NULL operands, non-zero divisor)."""
+    from ..symex import Engine as _E, show as _sh
+    ops = _operand_syms(fi)
+    env = dict(zip(fi.params, ops))
+    oracle = _zero_oracle(ops[1], False) if len(ops) > 1 and kind in ('Div', 'Mod') else None
+    out = []
+    for p in _E(P, oracle=oracle).paths(fi, dict(env)):
+        if p.outcome != 'return':
+            continue
+        cond = ' and '.join(f'{_sh(t)[:50]} is {o}' for t, o in p.decisions)
+        out.append((cond, _from_sx(p.value, ops)))
+    return out
+
+
 def _from_sx(v, ops):
     """symex term -> the tuple form `_expected_terms` is written in."""
     from ..symex import T as _T, Sym as _S
@@ -408,6 +423,17 @@ def rule_opsem(P) -> RuleResult:
             term = _external_term(o.impl, len(o.intypes))
         else:
             term = None
+        if term is None and isinstance(o.impl, FuncInfo):
+            # the paths of the implementation disagree (a fast path, a special case): each of them must compute the operation
+            alts = _terms(P, o.impl, o.kind)
+            if alts and all(t[0] != 'expr' for _, t in alts):
+                wrong = [(c, t) for c, t in alts if t not in exp]
+                if wrong:
+                    res.fail(construct, 'operation', f'{o.label} must compute {_show(exp[0])} for all operands; when {wrong[0][0] or "(always)"} its '
+                             f'implementation computes {_show(wrong[0][1])}', where)
+                else:
+                    res.ok({'overload': o.label, 'paths': len(alts), 'every_path': _show(exp[0])})
+                continue
         if term is None:
             res.unresolved += 1
             res.info(f'{o.label}: implementation shape not understood (not judged)')
